@@ -91,7 +91,7 @@ def build_comb(comb, args, mode):
 
 def standalone(T, x_spec, opts):
     import utype
-    return oracle.outcome(utype.type_transform, codec.decode(x_spec), T, opts)
+    return oracle.reject_raw(oracle.outcome(utype.type_transform, codec.decode(x_spec), T, opts))
 
 
 def run_top(T, x, opts):
@@ -218,7 +218,7 @@ def judge_case(case):
             cur = codec.decode(vs)
             failed = False
             for t in built:
-                r = oracle.outcome(utype.type_transform, cur, t, opts)
+                r = oracle.reject_raw(oracle.outcome(utype.type_transform, cur, t, opts))
                 if r[0] != "ok":
                     failed = True
                     break
